@@ -16,7 +16,9 @@ use std::collections::BTreeMap;
 #[derive(Clone, Copy, Debug, PartialEq, Eq)]
 pub enum Mention { Direct, Compressed, Free }
 #[derive(Clone, Debug)]
-pub struct SecPlan { stream_format: bool, mentions: Vec<(u32, Mention)>, split: bool, filter: u8, new_root: bool, grow: u32, keep_gen_on_free: bool }
+pub struct SecPlan { stream_format: bool, mentions: Vec<(u32, Mention)>, split: bool, filter: u8, new_root: bool, grow: u32, keep_gen_on_free: bool,
+    /// an update in stream format writes its cross-reference stream as a new version of the previous section's cross-reference stream object
+    reuse_xref_nr: bool }
 #[derive(Clone, Debug)]
 pub struct Plan { n_objs: u32, sections: Vec<SecPlan> }
 
@@ -37,6 +39,7 @@ pub fn build(plan: &Plan) -> Built {
     let mut w = W::new(b"", "1.6");
     let mut state: BTreeMap<u32, State> = BTreeMap::new();
     let mut next_free_nr = plan.n_objs + 1;
+    let mut last_xref_nr: Option<u32> = None;
     let mut root = 1u32;
     let mut size = 0u32;
     let mut labels: Vec<String> = Vec::new();
@@ -112,7 +115,10 @@ pub fn build(plan: &Plan) -> Built {
             w.free(0, first, 65535);
             for (i, (n, gen)) in frees.iter().enumerate() { w.free(*n, frees.get(i + 1).map(|f| f.0).unwrap_or(0), *gen); }
         }
-        let xref_nr = if sec.stream_format { let n = next_free_nr; next_free_nr += 1; Some(n) } else { None };
+        let xref_nr = if sec.stream_format {
+            match last_xref_nr { Some(n) if sec.reuse_xref_nr && si > 0 => { labels.push("xref-stream-number-reused".into()); Some(n) } _ => { let n = next_free_nr; next_free_nr += 1; Some(n) } }
+        } else { None };
+        if xref_nr.is_some() { last_xref_nr = xref_nr; }
         size = size.max(next_free_nr) + sec.grow;
         next_free_nr = next_free_nr.max(size - sec.grow); // numbers in the slack stay undefined
         let id0 = format!("id-{}-{}", si, plan.n_objs).into_bytes();
@@ -160,7 +166,7 @@ pub fn gen_plan(s: &mut Src, max_objs: u32, max_updates: u32) -> Plan {
         }
         // random order inside the section
         for i in (1..mentions.len()).rev() { let j = s.draw(i as u32 + 1) as usize; mentions.swap(i, j); }
-        sections.push(SecPlan { stream_format, mentions, split: s.draw(3) == 0, filter: s.draw(3) as u8, new_root: s.draw(6) == 0, grow: if s.draw(4) == 0 { 1 + s.draw(3) } else { 0 }, keep_gen_on_free: s.draw(3) == 0 });
+        sections.push(SecPlan { stream_format, mentions, split: s.draw(3) == 0, filter: s.draw(3) as u8, new_root: s.draw(6) == 0, grow: if s.draw(4) == 0 { 1 + s.draw(3) } else { 0 }, keep_gen_on_free: s.draw(3) == 0, reuse_xref_nr: s.draw(4) == 0 });
     }
     Plan { n_objs, sections }
 }
@@ -241,10 +247,11 @@ fn exhaustive(run: &Run, n_sections: usize) {
     // 2 tracked objects (3 and 4) x n sections x {absent, direct, compressed, free} x 2 formats
     let opts = [None, Some(Mention::Direct), Some(Mention::Compressed), Some(Mention::Free)];
     let per_sec = 2 * 4 * 4; // format x obj3 x obj4
-    let total = (per_sec as u64).pow(n_sections as u32) * (1 << n_sections);
+    let total = (per_sec as u64).pow(n_sections as u32) * (1 << n_sections) * (1 << n_sections);
     par_for(total, |code| {
         let code_keep = code % (1 << n_sections);
-        let mut code = code >> n_sections;
+        let code_reuse = (code >> n_sections) % (1 << n_sections);
+        let mut code = code >> (2 * n_sections);
         let mut sections = Vec::new();
         for _ in 0..n_sections {
             let c = code % per_sec as u64; code /= per_sec as u64;
@@ -253,11 +260,14 @@ fn exhaustive(run: &Run, n_sections: usize) {
             let mut mentions = Vec::new();
             if let Some(m) = a { mentions.push((3, m)); }
             if let Some(m) = b { mentions.push((4, m)); }
-            sections.push(SecPlan { stream_format, mentions, split: false, filter: 0, new_root: false, grow: 0, keep_gen_on_free: (code_keep >> sections.len()) & 1 == 1 });
+            sections.push(SecPlan { stream_format, mentions, split: false, filter: 0, new_root: false, grow: 0, keep_gen_on_free: (code_keep >> sections.len()) & 1 == 1, reuse_xref_nr: (code_reuse >> sections.len()) & 1 == 1 });
         }
         let plan = Plan { n_objs: 4, sections };
         // well-formedness: skip plans whose mentions would be dropped by build (compressed in a table section)
         if plan.sections.iter().any(|s| !s.stream_format && s.mentions.iter().any(|(_, m)| *m == Mention::Compressed)) { return; }
+        // the re-use flag means something only for a stream-format update that follows a stream-format section; the keep flag only where a section frees
+        if plan.sections.iter().enumerate().any(|(i, s)| s.reuse_xref_nr && (i == 0 || !s.stream_format || !plan.sections[..i].iter().any(|p| p.stream_format))) { return; }
+        if plan.sections.iter().any(|s| s.keep_gen_on_free && !s.mentions.iter().any(|(_, m)| *m == Mention::Free)) { return; }
         run.eval();
         let b = build(&plan);
         run.nontrivial(fnv(&b.bytes));
@@ -267,7 +277,7 @@ fn exhaustive(run: &Run, n_sections: usize) {
             run.violation(&sig, &detail, witness(&plan));
         }
     });
-    run.exhaustive(&format!("2 tracked objects x {} sections x {{absent, direct, compressed, free}} x {{table, stream}} (well-formed subset)", n_sections), true);
+    run.exhaustive(&format!("2 tracked objects x {} sections x {{absent, direct, compressed, free}} x {{table, stream}} x {{free entry adds one to / keeps the generation}} x {{fresh / re-used xref stream number}} (well-formed subset)", n_sections), true);
 }
 
 pub fn run(run: &Run) {
